@@ -2,6 +2,7 @@
 //! Runtime-monitoring harness for ordinals/ord. One sub-command per property;
 //! see /verif/DESIGN.md.
 
+mod alloc_track;
 mod big;
 mod chainbuild;
 mod ctx;
@@ -16,6 +17,9 @@ mod node;
 mod props;
 mod report;
 mod rng;
+
+#[global_allocator]
+static GLOBAL: alloc_track::Tracking = alloc_track::Tracking;
 
 use ctx::Ctx;
 use report::Report;
@@ -70,6 +74,9 @@ fn main() {
     "C34" => props::c31::run_c34(&ctx, &mut rep),
     "C32" => props::c32::run(&ctx, &mut rep),
     "C33" => props::c33::run(&ctx, &mut rep),
+    "C27" => props::c27::run(&ctx, &mut rep),
+    "C28" => props::c28::run(&ctx, &mut rep),
+    "C35" => props::c35::run(&ctx, &mut rep),
     "C36" => props::c36::run(&ctx, &mut rep),
     other => {
       eprintln!("unknown property {other}");
